@@ -168,7 +168,7 @@ Impl(op, M, a) ==
     [] op = "trim"      -> TrimOp(M, a.i, a.d)
     [] op = "printf"    -> PrintfOp(M, a.i, a.k, a.n)
     [] op \in {"compare", "rel", "cmpx"} -> Conv(Conv(M, a.i), a.k)      \* const char* s1 = *this, * s2 = other;
-    [] op = "find"      -> Conv(M, a.i)
+    [] op \in {"find", "findof"} -> Conv(M, a.i)
 
 \* Block ids are heap addresses: only their identity matters.  After every operation the live blocks are renumbered
 \* in the order of the first variable that holds them (symmetry reduction; the temporaries are dead by then).
